@@ -13,7 +13,8 @@
    [to_dense_entry] (below, under NoDupKeys) identifies [sp_entry] with the entries of [sp_to_dense]. *)
 From Coq Require Import List Arith ZArith QArith Qcanon Lia.
 From OV Require Import Base.Panic Base.Arith Base.Flat Model.Vector Model.Matrix Model.Sparse Inst.QcInst
-                       Proofs.SparseBase Proofs.SparseMul.
+                       Proofs.SparseBase Proofs.SparseMul Proofs.SparseWf Proofs.SparseHist
+                       Proofs.SparseViews Proofs.SparseRefine Proofs.SparseTranspose Proofs.SparseFinal.
 Import ListNotations.
 Local Open Scope nat_scope.
 
@@ -55,6 +56,27 @@ Check sp_scale_mul : forall (A : Arith), RingLaws A -> forall (s : sparse A) (a 
   exists s' u, sp_scale s a = Ok s' /\ wfS s' /\ sp_mul s x = Ok u /\ sp_mul s' x = Ok (vscale u a).
 Print Assumptions sp_scale_mul.
 
+(* P2: multiplying by the explicit transpose equals the transposed product *)
+Theorem sp_transpose_mul : forall (A : Arith), RingLaws A -> forall (s : sparse A) (y : list A),
+  wfS s -> length y = sp_rows s ->
+  exists s' w, sp_transpose s = Ok s' /\ sp_mul s' y = Ok w /\ sp_tmul s y = Ok w.
+Proof. intros A RL s y. exact (sp_transpose_mul_lemma RL s y). Qed.
+Check sp_transpose_mul : forall (A : Arith), RingLaws A -> forall (s : sparse A) (y : list A),
+  wfS s -> length y = sp_rows s ->
+  exists s' w, sp_transpose s = Ok s' /\ sp_mul s' y = Ok w /\ sp_tmul s y = Ok w.
+Print Assumptions sp_transpose_mul.
+
+(* the matrix the products are stated against is the dense conversion: for storage with no position
+   stored twice, entry (i,j) of to_dense (read through the modelled dense index) is sp_entry s i j *)
+Theorem to_dense_entry : forall (A : Arith), RingLaws A -> forall (s : sparse A), wfS s -> NoDupKeys s ->
+  exists D, sp_to_dense s = Ok D /\ rows D = sp_rows s /\ cols D = sp_cols s /\
+    forall i j, i < sp_rows s -> j < sp_cols s -> mget D i j = Ok (sp_entry s i j).
+Proof. intros A RL s. exact (to_dense_entry_lemma RL s). Qed.
+Check to_dense_entry : forall (A : Arith), RingLaws A -> forall (s : sparse A), wfS s -> NoDupKeys s ->
+  exists D, sp_to_dense s = Ok D /\ rows D = sp_rows s /\ cols D = sp_cols s /\
+    forall i j, i < sp_rows s -> j < sp_cols s -> mget D i j = Ok (sp_entry s i j).
+Print Assumptions to_dense_entry.
+
 (* ---- non-vacuity: the hypotheses hold for a concrete non-trivial input at the exact instance ----
    a 3x4 matrix with an empty column, a column holding two entries out of row order, and a vector
    that is not all-ones. *)
@@ -87,3 +109,17 @@ Proof. split; [exact ex_s_wf|]. split; reflexivity. Qed.
 
 Example sp_scale_mul_nonvacuous : wfS ex_s /\ length ex_x = sp_cols ex_s.
 Proof. split; [exact ex_s_wf|]. reflexivity. Qed.
+
+Example sp_transpose_mul_nonvacuous : wfS ex_s /\ length ex_y = sp_rows ex_s /\
+  fl_res (fl_list flat_q) (let* t := sp_transpose ex_s in sp_mul t ex_y) = [0; 4;  2; 0; 1;  2; 2; 1;  2; -7; 1;  2; 10; 3]%Z.
+Proof. split; [exact ex_s_wf|]. split; [reflexivity|]. vm_compute. reflexivity. Qed.
+
+Example ex_s_nodup : NoDupKeys ex_s.
+Proof.
+  unfold NoDupKeys, ents, visits, seg, ent, ex_s, trow, tcol.
+  cbn [sp_rows sp_cols sp_nonzero sp_val sp_row_index sp_col_start seq flat_map map nth Nat.add Nat.sub app fst snd].
+  repeat constructor; cbn [In]; intros H; repeat (destruct H as [H|H]; [discriminate H|]); destruct H.
+Qed.
+
+Example to_dense_entry_nonvacuous : wfS ex_s /\ NoDupKeys ex_s.
+Proof. split; [exact ex_s_wf|exact ex_s_nodup]. Qed.
